@@ -166,7 +166,7 @@ fn check_pointer(w: &World, m: usize, g: usize, mon: &mut Mon, ctx: &str) {
         };
         mon.find(
             "C18",
-            format!("C18|pointer|{pred}|after={}", ctx_class(ctx)),
+            format!("C18|pointer|{pred}"),
             format!("client c{m} group g{g}: last_message_id={:?} but first valid message of the default order is {:?} ({} stored) after {ctx}", rec.last_message_id.map(|i| i.to_hex()[..8].to_string()), expect.map(|i| i.to_hex()[..8].to_string()), msgs.len()),
         );
     }
@@ -369,6 +369,22 @@ pub fn run_history(rng: &mut Rng, cfg: &HistCfg, dir: &Path, tag: &str) -> HistR
                 if w.clients[m].pending_own.contains_key(&g) {
                     continue;
                 }
+                if sim.bounded_depth {
+                    // flow control: (a) catch up on overdue commits before moving on, (b) do not
+                    // open a fork more than retention-1 epochs below the most advanced member
+                    if let Some(od) = w.overdue_commit(m, g, sim.retention, sim.causal, sim.proposals_first) {
+                        let d = w.deliver(m, od, OwnMode::Echo);
+                        schedule.push(Step::Deliver { m, idx: od });
+                        rollbacks += d.rollbacks.len();
+                        step_monitors(&w, m, &mut mon, &format!("process_message:{}", d.class));
+                        continue;
+                    }
+                    let gid = w.gid(g);
+                    let cur = w.clients[m].state(g, &gid).map(|s| s.1).unwrap_or(0);
+                    if cur + (sim.retention as u64) <= w.max_epoch(g) {
+                        continue;
+                    }
+                }
                 let admin = w.is_admin_now(m, g);
                 let kind = pick_commit_kind(rng, sim, admin);
                 let ts_off = rng.below(2) as u64;
@@ -446,7 +462,12 @@ pub fn run_history(rng: &mut Rng, cfg: &HistCfg, dir: &Path, tag: &str) -> HistR
         if cand.is_empty() {
             continue;
         }
-        let idx = *rng.pick(&cand);
+        let mut idx = *rng.pick(&cand);
+        if sim.bounded_depth
+            && let Some(od) = w.overdue_commit(m, g, sim.retention, sim.causal, sim.proposals_first)
+        {
+            idx = od;
+        }
         let auto_mode = if rng.chance(sim.immediate_pct) { OwnMode::Immediate } else { OwnMode::Echo };
         let d = w.deliver(m, idx, auto_mode);
         schedule.push(Step::Deliver { m, idx });
@@ -607,9 +628,27 @@ fn judge_c01(w: &World, g: usize, chain: &[usize], states: &[StateKey], reached_
         let preds = classify_divergence(w, ci, g, chain, states, sim, &final_state, active);
         let clause = if !active { "inactive-but-member" } else if c.state(g, &gid) == final_state { "same-mls-state-different-view" } else { "diverged" };
         let parts = if active { mfp_parts(&mfp, &ofp) } else { "state".to_string() };
+        // one explanatory predicate per signature, by priority; the rest only in the detail
+        const PRIORITY: [&str; 9] = [
+            "fork-deeper-than-retention",
+            "rotated-nostr-id-on-losing-branch",
+            "earlier-invalid-commit-forces-rollback",
+            "immediate-merge-lost-race",
+            "applied-own-commit-that-validation-refuses",
+            "evicted-on-losing-branch",
+            "commit-before-referenced-proposal",
+            "ahead-of-epoch-marked-failed",
+            "restarted",
+        ];
+        let primary = PRIORITY.iter().find(|p| preds.iter().any(|x| x.starts_with(**p))).copied().unwrap_or("unexplained");
+        if primary == "fork-deeper-than-retention" {
+            // outside the bound the property states ("forks up to the configured retention depth")
+            mon.count("c01_members_not_judged_fork_deeper_than_retention");
+            continue;
+        }
         mon.find(
             "C01",
-            format!("C01|{clause}|{}", preds.join("+")),
+            format!("C01|{clause}|{primary}"),
             format!("member c{ci} ({role}) ends at {:?} while the MIP-03 chain ends at {:?}; differing parts: {parts}; predicates {:?}", c.state(g, &gid).map(|s| (s.1, s.2[..6].to_string())), final_state.as_ref().map(|s| (s.1, s.2[..6].to_string())), preds),
         );
     }
@@ -666,6 +705,19 @@ fn classify_divergence(w: &World, ci: usize, g: usize, chain: &[usize], states: 
             last = Some(i);
         }
     }
+    if !c.rollback_then_refused.is_empty() {
+        preds.insert("earlier-invalid-commit-forces-rollback".into());
+    }
+    // M applied (on echo or by merging) an own commit that the library's validation refuses at
+    // every other member (seen at the oracle replica)
+    if let Some(o) = w.groups[g].oracle {
+        for t in c.transitions.iter().filter(|t| t.0.0 == g) {
+            let idx = if t.1 >= usize::MAX / 2 { usize::MAX - t.1 } else { t.1 };
+            if w.log[idx].author == ci && w.clients[o].first_result.get(&idx).map(|r| r.starts_with("Err(")).unwrap_or(false) {
+                preds.insert("applied-own-commit-that-validation-refuses".into());
+            }
+        }
+    }
     let Some(di) = last else {
         preds.insert("never-on-canonical-chain".into());
         return preds.into_iter().collect();
@@ -715,7 +767,10 @@ fn classify_divergence(w: &World, ci: usize, g: usize, chain: &[usize], states: 
         } else if t.1 != wi {
             // applied a loser at s
             let loser = &w.log[t.1];
-            if loser.what.starts_with("remove") && !active {
+            let _ = loser;
+            if !active {
+                // M applied a non-canonical commit that removed it (an admin's remove, or the
+                // losing auto-commit of its own leave request)
                 preds.insert("evicted-on-losing-branch".into());
             }
             if loser.author == ci && loser.mode == OwnMode::Echo {
@@ -731,12 +786,18 @@ fn classify_divergence(w: &World, ci: usize, g: usize, chain: &[usize], states: 
             preds.insert("ahead-of-epoch-marked-failed".into());
         }
     }
+    // the winner was first offered before a proposal it carries by reference
+    if let Some(ws) = c.first_offer_seq.get(&wi) {
+        if wp.refs.iter().any(|r| c.first_offer_seq.get(r).map(|rs| rs > ws).unwrap_or(true)) {
+            preds.insert("commit-before-referenced-proposal".into());
+        }
+    }
     if !wp.refs.is_empty() {
         // a referenced proposal that M never processed successfully while in state s
         for r in &wp.refs {
             let ok_at_s = c.first_offer_state.get(r).map(|x| x.as_ref() == Some(s)).unwrap_or(false) && !is_refusal(c.first_result.get(r).map(|x| x.as_str()).unwrap_or("Err("));
             if !ok_at_s {
-                preds.insert("referenced-proposal-not-queued-in-creation-state".into());
+                preds.insert("commit-before-referenced-proposal".into());
             }
         }
     }
@@ -767,7 +828,6 @@ fn judge_c02(w: &World, g: usize, _chain: &[usize], states: &[StateKey], sim: &S
     let final_state = w.clients[o].state(g, &gid);
     // membership per canonical state = oracle's member set after reaching it; reconstruct from the
     // oracle's transitions
-    let _ = sim;
     for (ci, c) in w.clients.iter().enumerate() {
         if ci == o || !w.groups[g].invited.contains(&ci) {
             continue;
@@ -795,12 +855,30 @@ fn judge_c02(w: &World, g: usize, _chain: &[usize], states: &[StateKey], sim: &S
                 if !was_member {
                     continue;
                 }
+                // outside the configured past-epoch window at first delivery => not demanded
+                let window = (sim.mdk_cfg.max_past_epochs as u64).min(5);
+                if let Some(Some(sf)) = c.first_offer_state.get(&idx)
+                    && sf.1.saturating_sub(p.at.1) > window
+                {
+                    mon.count("c02_messages_outside_past_epoch_window");
+                    // still: never duplicated
+                    if copies > 1 {
+                        mon.find("C02", "C02|duplicate|outside-window".into(), format!("message e{idx} has {copies} copies at c{ci}"));
+                    }
+                    continue;
+                }
                 mon.count("c02_due_messages_checked");
                 if copies != 1 {
                     let first = c.first_result.get(&idx).cloned().unwrap_or("never-offered".into());
                     let st_at_first = c.first_offer_state.get(&idx).cloned().flatten();
-                    let pred = if p.author == ci {
+                    let pred = if first == "Err(GroupNotFound)" {
+                        // the wrapper carries the nostr group id in force when it was created; the
+                        // receiver had already applied a rotation
+                        "tagged-with-retired-nostr-id"
+                    } else if p.author == ci {
                         "own-message"
+                    } else if st_at_first.as_ref().map(|s| s.1 < p.at.1).unwrap_or(false) {
+                        "first-offered-before-reaching-its-epoch"
                     } else if st_at_first.as_ref().map(|s| !canon.contains(s)).unwrap_or(false) {
                         "first-offered-on-losing-branch"
                     } else if st_at_first.as_ref().map(|s| s.1 > p.at.1).unwrap_or(false) {
@@ -819,7 +897,9 @@ fn judge_c02(w: &World, g: usize, _chain: &[usize], states: &[StateKey], sim: &S
                 let valid = if p.author == ci { m.state == message_types::MessageState::Processed } else { m.state == message_types::MessageState::Processed };
                 if !valid {
                     let st_at_first = c.first_offer_state.get(&idx).cloned().flatten();
-                    let pred = if p.author == ci && m.state == message_types::MessageState::Created {
+                    let pred = if p.author == ci && m.state == message_types::MessageState::Created && c.first_result.get(&idx).map(|x| x == "Err(GroupNotFound)").unwrap_or(false) {
+                        "own-echo-tagged-with-retired-nostr-id"
+                    } else if p.author == ci && m.state == message_types::MessageState::Created {
                         "own-copy-not-confirmed"
                     } else if m.state == message_types::MessageState::EpochInvalidated && m.epoch.map(|e| e != p.at.1).unwrap_or(false) {
                         "filed-under-receiver-epoch-then-invalidated"
